@@ -448,11 +448,11 @@ void register_c06(std::vector<Profile>& v)
   p.judge = judge_c06;
   p.rule =
     "one case = one seeded plan (all four queue types, 1-4 logging/flushing threads + first-time threads spawned next to a "
-    "backend stall, recording and real file sinks, backend sleep up to 60 s with notify) under one seeded schedule; the "
+    "backend stall, recording and real file sinks (FileSink, RotatingFileSink), backend sleep up to 60 s with notify) under one seeded schedule; the "
     "oracle runs in the scheduler step in which flush_log() returns; distinct = distinct event hash; non-trivial = >=1 flush "
     "return checked against >=1 required (statement, sink) pair and >=1 preemption";
   p.real_components = {"LoggerImpl::flush_log/log_statement", "SPSC queues", "BackendWorker (real thread) incl. flush event handling",
-                       "StreamSink/FileSink stdio path (file sinks)", "ThreadContextManager"};
+                       "StreamSink/FileSink stdio path (file sinks)", "RotatingFileSink (size and minutely rotation)", "ThreadContextManager"};
   p.stub_components = {"recording sinks", "clock (virtual)", "scheduling (simulator)"};
   p.assumptions = {"sequentially consistent atomics", "'before' = the log call returned (global event number) before flush_log was invoked",
                    "file content is read through a fresh descriptor in the same scheduler step",
